@@ -212,6 +212,19 @@ func applyProfile(t *Tape, property string, sc *Scenario, cfg *Config) {
 				}
 			}
 		}
+		if (property == "C14" || property == "C03") && strings.HasPrefix(sc.Traffic, "ingress-") {
+			// ingress providers can carry a weight and a header match in one step; the step after it often keeps one of the
+			// two and drops the other (the desired annotations become a subset of what is there)
+			for i := range sc.Steps {
+				if sc.Steps[i].Header != "" && t.Next(2) == 1 {
+					sc.Steps[i].Both = true
+					sc.Steps[i].Weight = []int{5, 10, 20, 50}[t.Next(4)]
+					if i+1 < len(sc.Steps) && sc.Steps[i+1].Weight >= 0 && sc.Steps[i+1].Header == "" && t.Next(2) == 1 {
+						sc.Steps[i+1].Weight = sc.Steps[i].Weight
+					}
+				}
+			}
+		}
 		if force != "" {
 			// step orders other than the plan's: jumps between traffic steps
 			if t.Next(2) == 1 {
